@@ -72,6 +72,7 @@ manifest = {
         {"name": "walsim", "path": "sim/walsim", "serves_properties": [p for p in props if CLAIMS.get(p, {}).get("engine") == "walsim"], "kind_free_text": "WAL public API histories + enumerated cut/zero-fill/flip faults on the segment files vs frame-list model"},
         {"name": "btsim", "path": "sim/btsim", "serves_properties": [p for p in props if CLAIMS.get(p, {}).get("engine") == "btsim"], "kind_free_text": "BTree/Freelist over an in-memory Storage vs ordered-map / set models, independent page walker"},
         {"name": "corruptsim", "path": "sim/corruptsim", "serves_properties": [p for p in props if CLAIMS.get(p, {}).get("engine") == "corruptsim"], "kind_free_text": "stored-byte faults on every file of a valid database and on harvested encodings; panic/abort/hang oracle"},
+        {"name": "hnswsim", "path": "sim/hnswsim", "serves_properties": [p for p in props if CLAIMS.get(p, {}).get("engine") == "hnswsim"], "kind_free_text": "PersistentHnswIndex histories on simdisk vs brute-force row->vector model, reopen and sync-image differential"},
         {"name": "schedsim", "path": "sched/vsched", "serves_properties": [p for p in props if CLAIMS.get(p, {}).get("engine") == "schedsim"], "kind_free_text": "shuttle-controlled thread schedules over TurDB's own code (parking_lot replaced by a shuttle-backed shim, atomics switched by cfg)"},
     ],
     "checks": checks,
